@@ -42,12 +42,12 @@ ENGINES = {
 
 POOLSIM_ESSENTIAL = {
     "C01": ["C01.home-ready-cur", "C01.home-ready:after-refresh", "C01.home-down-wait", "C01.bind", "C01.unbind",
-            "C01.rebind-ignored", "C01.failed-bind-unbind"],
+            "C01.rebind-ignored", "C01.failed-bind-unbind", "C01.macro-rebind-complete"],
     "C02": ["C02.least-loaded-multi", "C02.at-max", "C02.count", "C02.quiescent-zero", "C02.empty-snap"],
     "C03": ["C03.initial", "C03.growth-attempt", "C03.growth-blocked-by-connecting", "C03.max", "C02.at-max"],
     "C04": ["C04.aggregate", "C04.publish", "C04.publish-tf-boundary", "C04.ignored-report", "C04.tf-picker"],
     "C05": ["C05.hostile-case", "C05.malformed-handled"],
-    "C06": ["C06.lock-free-after-op", "C06.hard-state", "C09.rr-wait", "C08.place-saturated"],
+    "C06": ["C06.lock-free-after-op", "C06.hard-state", "C09.rr-wait", "C08.place-saturated", "C06.waiter-parked"],
     "C07": ["C07.rule", "C07.rule-refresh", "C07.swap", "C07.window-boundary", "C07.window-doubled",
             "C07.started-before-last-response", "C07.disabled", "C07.extreme-window"],
     "C08": ["C08.fallback", "C08.place", "C08.sticky", "C08.place-saturated"],
@@ -107,7 +107,7 @@ PROPS["C11"] = dict(level="exploration",
     assumptions=["the reference traversal is written from the statement over the generator's own value tree (not reflect)",
                  "shapes the statement does not define (pointer-to-pointer, interface holding a pointer, maps, arrays, repeated-of-repeated, promoted fields of embedded structs, non-identifier segments) are checked for totality only"],
     stages=[dict(name="keys", engine="keys", test="TestVerifKeys", batches=dict(quick=8, thorough=16),
-                 essential={"C11": ["C11.total", "C11.exact-keys", "C11.fan-out", "C11.empty-repeated", "C11.error-expected", "C11.ambiguous-shape-total", "C11.proto-message"]},
+                 essential={"C11": ["C11.total", "C11.exact-keys", "C11.fan-out", "C11.empty-repeated", "C11.error-expected", "C11.ambiguous-shape-total", "C11.proto-message", "C11.same-name-types"]},
                  timeout=dict(quick=900, thorough=7200))])
 
 PROPS["C18"] = dict(level="exploration",
@@ -133,7 +133,7 @@ PROPS["C17"] = dict(level="exploration",
                  "GCPMultiEndpoint pools are dialled with a dialer that always fails (no network is needed for the configuration checks)"],
     stages=[dict(name="cfg", engine="cfg", test="TestVerifCfg", batches=dict(quick=8, thorough=16),
                  essential={"C17": ["C17.parse-accept", "C17.parse-reject", "C17.round-trip", "C17.initial-size", "C17.second-update", "C17.caller-mutates", "C17.caller-object-unchanged",
-                                    "C17.effective-config-wb", "C17.method-mapping", "C17.method-key-path", "C17.method-bind", "C17.watermark", "C17.max-size", "C17.gme-config-copy", "C17.gme-update"]},
+                                    "C17.effective-config-wb", "C17.method-mapping", "C17.method-key-path", "C17.method-bind", "C17.watermark", "C17.max-size", "C17.gme-config-copy", "C17.gme-update", "C17.update-on-emptied-pool"]},
                  timeout=dict(quick=900, thorough=7200))])
 
 PROPS["C12"] = dict(level="exploration",
@@ -153,13 +153,13 @@ PROPS["C15"] = dict(level="exploration",
     rule="seeded walks of 20 ops (valid reconfigurations of 1-3 named MultiEndpoints over 5 shared endpoints, endpoint outages/recoveries, settle+routed RPCs unary and streaming for no-name/known/unknown contexts); non-trivial = every walk (each performs routed RPC checks and pool-set checks); distinct = hash of the op log",
     assumptions=GME_ASSUME,
     stages=[dict(name="gme", engine="gme", test="TestVerifGME", batches=dict(quick=8, thorough=16), crash_props=["C15", "C16"],
-                 essential={"C15": ["C15.route", "C15.route:no-name", "C15.route:unknown-name", "C15.route:known", "C15.route-stream", "C15.pools", "C15.immediate", "C15.no-redial", "C15.outage", "C15.recovery"]},
+                 essential={"C15": ["C15.route", "C15.route:no-name", "C15.route:unknown-name", "C15.route:known", "C15.route-stream", "C15.pools", "C15.immediate", "C15.no-redial", "C15.outage", "C15.recovery", "C15.concurrent-updates"]},
                  timeout=dict(quick=1200, thorough=7200))])
 PROPS["C16"] = dict(level="fault_enumeration",
     rule="enumerated fault kinds {default missing, empty list for an existing ME, empty list for a new ME, dial failure at the 1st/2nd/3rd dial, valid} applied in seeded sequences of 1-4 updates on top of random legitimate changes (Go map order varies per repetition), and failed constructions {dial failure at dial 1/2, default missing, empty list}; non-trivial = every case (each ends with Close() and the leak check); distinct = hash of the op log incl. the dial order actually taken",
     assumptions=GME_ASSUME + ["client-side goroutines are recognised by frames of monitoredConn.monitor, grpc.addrConn/ClientConn/ccBalancerWrapper/ccResolverWrapper, transport.http2Client"],
     stages=[dict(name="gme", engine="gme", test="TestVerifGME", batches=dict(quick=8, thorough=16), crash_props=["C15", "C16"],
-                 essential={"C16": ["C16.rejected", "C16.routing-unchanged", "C16.update:default-missing", "C16.update:existing-empty", "C16.update:new-empty", "C16.update:dial-fail", "C16.failed-construction", "C16.close", "C16.no-goroutine-left", "C16.accepted-update", "C16.redial-after-rollback"]},
+                 essential={"C16": ["C16.rejected", "C16.routing-unchanged", "C16.update:default-missing", "C16.update:existing-empty", "C16.update:new-empty", "C16.update:dial-fail", "C16.failed-construction", "C16.close", "C16.no-goroutine-left", "C16.accepted-update", "C16.redial-after-rollback", "C16.delayed-switch-target-removed"]},
                  timeout=dict(quick=1200, thorough=7200))])
 
 PROPS["C10"] = dict(level="exploration",
